@@ -52,32 +52,32 @@ Proof.
 Qed.
 
 (* ---- compiling the children *)
-Lemma inner_compile_compiled : forall i, g_compiled (inner_graph i) = true -> inner_graph (fst (inner_compile i)) = inner_graph i.
+Lemma inner_compile_compiled : forall i oc, g_compiled (inner_graph i) = true -> inner_graph (fst (inner_compile i oc)) = inner_graph i.
 Proof.
-  intros [g|c] C; simpl in *.
-  - pose proof (compiled_compile g opt_default C) as S. destruct (g_compile fixed g opt_default); simpl in *; assumption.
-  - pose proof (compiled_c_compile c opt_default C) as S. destruct (c_compile fixed c opt_default); simpl in *; assumption.
+  intros [g|c] oc C; simpl in *.
+  - pose proof (compiled_compile g oc C) as S. destruct (g_compile fixed g oc); simpl in *; assumption.
+  - pose proof (compiled_c_compile c oc C) as S. destruct (c_compile fixed c oc); simpl in *; assumption.
 Qed.
 
-Lemma inner_compile_ok_compiled : forall i i' r, inner_compile i = (i', OCompiled r) -> g_compiled (inner_graph i') = true.
+Lemma inner_compile_ok_compiled : forall i oc i' r, inner_compile i oc = (i', OCompiled r) -> g_compiled (inner_graph i') = true.
 Proof.
-  intros [g|c] i' r; simpl.
-  - destruct (g_compile fixed g opt_default) as [g' o] eqn:G. intros H; inversion H; subst. simpl. eapply g_compile_ok_compiled; eauto.
-  - destruct (c_compile fixed c opt_default) as [c' o] eqn:G. intros H; inversion H; subst. simpl. eapply c_compile_ok_compiled; eauto.
+  intros [g|c] oc i' r; simpl.
+  - destruct (g_compile fixed g oc) as [g' o] eqn:G. intros H; inversion H; subst. simpl. eapply g_compile_ok_compiled; eauto.
+  - destruct (c_compile fixed c oc) as [c' o] eqn:G. intros H; inversion H; subst. simpl. eapply c_compile_ok_compiled; eauto.
 Qed.
 
 Lemma cc_keeps_compiled : forall ids inn inn' f id i,
   compile_children ids inn = (inn', f) -> nlookup id inn = Some i -> g_compiled (inner_graph i) = true ->
   exists i', nlookup id inn' = Some i' /\ inner_graph i' = inner_graph i.
 Proof.
-  induction ids as [|id0 ids IH]; intros inn inn' f id i H L C; simpl in H.
+  induction ids as [|[id0 oc0] ids IH]; intros inn inn' f id i H L C; simpl in H.
   - inversion H; subst. exists i; auto.
   - destruct (nlookup id0 inn) as [g0|] eqn:L0; [|eapply IH; eauto].
-    destruct (inner_compile g0) as [g0' o] eqn:G.
+    destruct (inner_compile g0 oc0) as [g0' o] eqn:G.
     assert (K : exists i1, nlookup id (nupdate id0 g0' inn) = Some i1 /\ inner_graph i1 = inner_graph i).
     { destruct (String.eqb id0 id) eqn:E.
       - apply String.eqb_eq in E; subst id0. rewrite L in L0; inversion L0; subst g0.
-        pose proof (inner_compile_compiled i C) as S. rewrite G in S; simpl in S.
+        pose proof (inner_compile_compiled i oc0 C) as S. rewrite G in S; simpl in S.
         exists g0'. split; [apply nlookup_nupdate_same; congruence|assumption].
       - apply String.eqb_neq in E. exists i. rewrite nlookup_nupdate_other; auto. }
     destruct K as [i1 [K1 K2]].
@@ -90,10 +90,10 @@ Qed.
 Lemma cc_dom : forall ids inn inn' f id,
   compile_children ids inn = (inn', f) -> nlookup id inn = None -> nlookup id inn' = None.
 Proof.
-  induction ids as [|id0 ids IH]; intros inn inn' f id H L; simpl in H.
+  induction ids as [|[id0 oc0] ids IH]; intros inn inn' f id H L; simpl in H.
   - inversion H; subst; assumption.
   - destruct (nlookup id0 inn) as [g0|] eqn:L0; [|eapply IH; eauto].
-    destruct (inner_compile g0) as [g0' o] eqn:G.
+    destruct (inner_compile g0 oc0) as [g0' o] eqn:G.
     assert (K : nlookup id (nupdate id0 g0' inn) = None).
     { destruct (String.eqb id0 id) eqn:E.
       - apply String.eqb_eq in E; subst id0. congruence.
@@ -104,19 +104,19 @@ Qed.
 
 Lemma cc_all_compiled : forall ids inn inn',
   compile_children ids inn = (inn', None) ->
-  forall id i, In id ids -> nlookup id inn' = Some i -> g_compiled (inner_graph i) = true.
+  forall id oc i, In (id, oc) ids -> nlookup id inn' = Some i -> g_compiled (inner_graph i) = true.
 Proof.
-  induction ids as [|id0 ids IH]; intros inn inn' H id i I L; simpl in *; [contradiction|].
+  induction ids as [|[id0 oc0] ids IH]; intros inn inn' H id oc i I L; simpl in *; [contradiction|].
   destruct (nlookup id0 inn) as [g0|] eqn:L0.
-  - destruct (inner_compile g0) as [g0' o] eqn:G.
+  - destruct (inner_compile g0 oc0) as [g0' o] eqn:G.
     destruct o; try discriminate.
     destruct I as [I|I].
-    + subst id0. pose proof (inner_compile_ok_compiled _ _ _ G) as C.
+    + inversion I; subst id0 oc0. pose proof (inner_compile_ok_compiled _ _ _ _ G) as C.
       assert (K : nlookup id (nupdate id g0' inn) = Some g0') by (apply nlookup_nupdate_same; congruence).
       destruct (cc_keeps_compiled _ _ _ _ _ _ H K C) as [i' [A B]]. rewrite A in L; inversion L; subst. rewrite B; assumption.
     + eapply IH; eauto.
   - destruct I as [I|I].
-    + subst id0. pose proof (cc_dom _ _ _ _ _ H L0). congruence.
+    + inversion I; subst id0 oc0. pose proof (cc_dom _ _ _ _ _ H L0). congruence.
     + eapply IH; eauto.
 Qed.
 
@@ -138,11 +138,11 @@ Qed.
 Definition child_frozen (s : nstate) (id : string) (g : gstate) : Prop :=
   exists i, nlookup id (ns_inn s) = Some i /\ inner_graph i = g /\ g_compiled g = true.
 
-Lemma n_compile_freezes : forall keys s o s1 r k id i,
+Lemma n_compile_freezes : forall keys s o s1 r k id oc i,
   n_compile_in keys s o = (s1, OCompiled r) ->
-  In k keys -> nlookup k (ns_att s) = Some id -> nlookup id (ns_inn s1) = Some i -> g_compiled (inner_graph i) = true.
+  In k keys -> nlookup k (ns_att s) = Some (id, oc) -> nlookup id (ns_inn s1) = Some i -> g_compiled (inner_graph i) = true.
 Proof.
-  intros keys s o s1 r k id gi H I A L. unfold n_compile_in in H.
+  intros keys s o s1 r k id oc gi H I A L. unfold n_compile_in in H.
   destruct (reaches_children (ns_out s) o) eqn:R.
   - destruct (compile_children (children_of s keys) (ns_inn s)) as [inn' failed] eqn:CC.
     destruct failed as [out|].
@@ -152,12 +152,12 @@ Proof.
   - destruct (not_reaching_fails _ _ R) as [e E]. rewrite E in H. inversion H.
 Qed.
 
-Theorem nested_compile_freezes_children : forall s o s1 r k id i,
+Theorem nested_compile_freezes_children : forall s o s1 r k id oc i,
   nstep s (NOuter (GCompile o)) = (s1, OCompiled r) ->
-  In k (map fst (g_nodes (ns_out s))) -> nlookup k (ns_att s) = Some id -> nlookup id (ns_inn s1) = Some i ->
+  In k (map fst (g_nodes (ns_out s))) -> nlookup k (ns_att s) = Some (id, oc) -> nlookup id (ns_inn s1) = Some i ->
   child_frozen s1 id (inner_graph i).
 Proof.
-  intros s o s1 r k id i H I A L. exists i. split; [assumption|]. split; [reflexivity|]. simpl in H.
+  intros s o s1 r k id oc i H I A L. exists i. split; [assumption|]. split; [reflexivity|]. simpl in H.
   eapply n_compile_freezes; eauto. apply sort_by_In; assumption.
 Qed.
 
@@ -179,14 +179,14 @@ Qed.
 Theorem nested_frozen_chain_child_reports : forall s id ch nk key ns,
   nlookup id (ns_inn s) = Some (IC ch) -> g_compiled (c_g ch) = true ->
   exists ch', nlookup id (ns_inn (fst (nstep s (NInner id (KC (CAppend nk key ns)))))) = Some (IC ch')
-    /\ c_g ch' = c_g ch /\ exists e, c_err ch' = Some e /\ inner_compile (IC ch') = (IC ch', OErr e).
+    /\ c_g ch' = c_g ch /\ exists e, c_err ch' = Some e /\ forall oc, inner_compile (IC ch') oc = (IC ch', OErr e).
 Proof.
   intros s id ch nk key ns L C. simpl. rewrite L. simpl.
   exists (c_append ch nk key ns). split; [apply nlookup_nupdate_same; congruence|].
   split; [apply frozen_c_append; left; assumption|].
   pose proof (compiled_append_reported ch nk key ns C) as R.
   destruct (c_err (c_append ch nk key ns)) as [e|] eqn:E; [|congruence].
-  exists e. split; [reflexivity|]. simpl. rewrite (c_compile_err _ opt_default _ E). reflexivity.
+  exists e. split; [reflexivity|]. intros oc. simpl. rewrite (c_compile_err _ oc _ E). reflexivity.
 Qed.
 
 Lemma istep_compiled : forall i c, g_compiled (inner_graph i) = true -> inner_graph (fst (istep i c)) = inner_graph i.
@@ -198,7 +198,7 @@ Qed.
 
 Lemma nstep_keeps_frozen : forall s c id g, child_frozen s id g -> child_frozen (fst (nstep s c)) id g.
 Proof.
-  intros s c id g [i [L [EQ C]]]. destruct c as [c'|k id0 kd|id0 c'].
+  intros s c id g [i [L [EQ C]]]. destruct c as [c'|k id0 kd oc0|id0 c'].
   - assert (Other : forall g' (o : outcome), child_frozen (mkN g' (ns_inn s) (ns_att s)) id g) by (intros; exists i; auto).
     destruct c' as [k nk a b|a b|a ends|o]; simpl;
       try (match goal with |- context [let '(_, _) := ?X in _] => destruct X end; simpl; apply Other; exact OOk).
@@ -230,16 +230,16 @@ Qed.
 
 (* after a successful Compile of the outer graph: every inner builder held by one of its nodes is compiled and its graph
    stays what it is under every later call sequence; a Graph child answers every Add* with ErrGraphCompiled *)
-Theorem nested_no_modification_after_compile : forall s o s1 r k id i cs,
+Theorem nested_no_modification_after_compile : forall s o s1 r k id oc i cs,
   nstep s (NOuter (GCompile o)) = (s1, OCompiled r) ->
-  In k (map fst (g_nodes (ns_out s))) -> nlookup k (ns_att s) = Some id -> nlookup id (ns_inn s1) = Some i ->
+  In k (map fst (g_nodes (ns_out s))) -> nlookup k (ns_att s) = Some (id, oc) -> nlookup id (ns_inn s1) = Some i ->
   let s2 := final nstep s1 cs in
   child_frozen s2 id (inner_graph i)
   /\ (forall gi c, nlookup id (ns_inn s2) = Some (IG gi) -> g_err gi = None -> is_add c = true ->
         nstep s2 (NInner id (KG c)) = (s2, OErr ECompiled)).
 Proof.
-  intros s o s1 r k id i cs H I A L s2.
-  pose proof (nested_compile_freezes_children _ _ _ _ _ _ _ H I A L) as F.
+  intros s o s1 r k id oc i cs H I A L s2.
+  pose proof (nested_compile_freezes_children _ _ _ _ _ _ _ _ H I A L) as F.
   pose proof (nested_frozen_child_unchanged cs _ _ _ F) as F2. split; [exact F2|].
   intros gi c L2 E Ad. destruct F2 as [i2 [L3 [EQ C]]]. fold s2 in L3. rewrite L2 in L3; inversion L3; subst i2. simpl in EQ.
   apply nested_frozen_child_refuses with (gi := gi); try assumption. rewrite EQ; assumption.
@@ -248,7 +248,7 @@ Qed.
 (* ---- the order in which the children are compiled matters when one of them fails (F-C20g) *)
 Definition two_children : nstate :=
   final nstep (n_init false)
-    [NSub "x" "s1" (SKGraph true); NSub "y" "s2" (SKGraph false); NOuter (GAddEdge START "x"); NOuter (GAddEdge "x" "y"); NOuter (GAddEdge "y" END_)].
+    [NSub "x" "s1" (SKGraph true) opt_default; NSub "y" "s2" (SKGraph false) opt_default; NOuter (GAddEdge START "x"); NOuter (GAddEdge "x" "y"); NOuter (GAddEdge "y" END_)].
 
 Definition probe (keys : list string) : outcome :=
   snd (nstep (fst (n_compile_in keys two_children opt_default)) (NInner "s1" (KG (GAddNode "t" NLambda false false)))).
@@ -269,7 +269,7 @@ Proof.
 Qed.
 
 Definition one_child_run : list ncall :=
-  [NSub "x" "s1" (SKGraph true); NSub "y" "s2" (SKChain true); NOuter (GAddEdge START "x"); NOuter (GAddEdge "x" "y"); NOuter (GAddEdge "y" END_);
+  [NSub "x" "s1" (SKGraph true) opt_default; NSub "y" "s2" (SKChain true) opt_default; NOuter (GAddEdge START "x"); NOuter (GAddEdge "x" "y"); NOuter (GAddEdge "y" END_);
    NOuter (GCompile opt_default);
    NInner "s1" (KG (GAddNode "t" NLambda false false)); NInner "s1" (KG (GAddEdge "s" "s")); NOuter (GCompile opt_default);
    NInner "s2" (KC (CAppend NLambda None false)); NInner "s2" (KC (CCompile opt_default)); NOuter (GCompile opt_default)].
@@ -330,7 +330,7 @@ Qed.
 
 Lemma nstep_att_inv : forall s c, att_inv s -> att_inv (fst (nstep s c)).
 Proof.
-  intros s c I. destruct c as [c'|k id0 ok|id0 c'].
+  intros s c I. destruct c as [c'|k id0 ok oc0|id0 c'].
   - destruct c' as [k nk a b|a b|a ends|o].
     1-3: (simpl; match goal with |- context [let '(_, _) := ?X in _] => pose proof (gstep_keys_incl (ns_out s)) as G; destruct X eqn:E end;
           simpl; intros k' id' L; specialize (I k' id' L)).
@@ -357,16 +357,32 @@ Lemma att_inv_init : forall st, att_inv (n_init st).
 Proof. intros st k id L. discriminate L. Qed.
 
 (* the theorem for the states the correspondence replays: whatever was called before *)
-Theorem nested_no_modification_after_compile_reachable : forall st cs0 o s1 r k id i cs,
+Theorem nested_no_modification_after_compile_reachable : forall st cs0 o s1 r k id oc i cs,
   let s := final nstep (n_init st) cs0 in
   nstep s (NOuter (GCompile o)) = (s1, OCompiled r) ->
-  nlookup k (ns_att s) = Some id -> nlookup id (ns_inn s1) = Some i ->
+  nlookup k (ns_att s) = Some (id, oc) -> nlookup id (ns_inn s1) = Some i ->
   let s2 := final nstep s1 cs in
   child_frozen s2 id (inner_graph i)
   /\ (forall gi c, nlookup id (ns_inn s2) = Some (IG gi) -> g_err gi = None -> is_add c = true ->
         nstep s2 (NInner id (KG c)) = (s2, OErr ECompiled)).
 Proof.
-  intros st cs0 o s1 r k id i cs s H A L.
-  apply nested_no_modification_after_compile with (s := s) (o := o) (r := r) (k := k); try assumption.
-  apply (reachable_att_inv cs0 (n_init st) (att_inv_init st)) with id. exact A.
+  intros st cs0 o s1 r k id oc i cs s H A L.
+  apply nested_no_modification_after_compile with (s := s) (o := o) (r := r) (k := k) (oc := oc); try assumption.
+  apply (reachable_att_inv cs0 (n_init st) (att_inv_init st)) with (id, oc). exact A.
 Qed.
+
+(* the options of a node (WithGraphCompileOptions) are the options its child is compiled with: a Chain child refuses a
+   trigger mode, a Graph child compiled in all-predecessor mode refuses its cycle — the parent's Compile returns that error *)
+Definition child_options_run : list ncall :=
+  [NSub "x" "s1" (SKChain true) (mkOpt (Some true) 0%Z); NOuter (GAddEdge START "x"); NOuter (GAddEdge "x" END_); NOuter (GCompile opt_default);
+   NSub "y" "s2" (SKGraph true) (mkOpt (Some true) 0%Z)].
+Definition child_options_run2 : list ncall :=
+  [NSub "y" "s2" (SKGraph true) (mkOpt (Some true) 0%Z); NOuter (GAddEdge START "y"); NOuter (GAddEdge "y" END_);
+   NInner "s2" (KG (GAddEdge "s" "s")); NOuter (GCompile opt_default); NInner "s2" (KG (GCompile opt_default))].
+
+Lemma child_options_run_outcomes :
+  match snd (run_calls nstep (n_init false) child_options_run), snd (run_calls nstep (n_init false) child_options_run2) with
+  | [OOk; OOk; OOk; OErr ETriggerUnsupported; OOk], [OOk; OOk; OOk; OOk; OErr EDagLoop; OCompiled _] => True
+  | _, _ => False
+  end.
+Proof. vm_compute. exact I. Qed.
